@@ -69,6 +69,14 @@ CHECKS = {
         "text": "Soundness: histories as in C01 plus nested creation bursts and operations on entries that left the tree, normal and full emitter; each event of each drain window must name an in-scope entry of the right kind that the window's operations created/removed/renamed/modified in that way, moves must join old and new name of one entry, synthetic only below a directory that arrived by a move. Completeness: every tree state of a small universe x every single op x recursive x full: the statement's required events must all arrive, structural events must be exactly the required ones, all else must be justified.",
         "note": "Same trust base as C01 plus vlib/justify.py. Identical adjacent events count once (queue coalescing). A move degraded to deleted+created is re-executed up to 3 times before it is reported (pairing is time based).",
     },
+    "C07": {
+        "engine": "fsops",
+        "category": "fault_enumeration",
+        "design_ref": "DESIGN.md §3.1, §4 C07",
+        "technique": "property-based testing with injected races: generated histories (ext ops, re-used names, nested bursts, API re-scheduling, root deletion) on the real kernel plus a real racing file-system operation injected at generated call indices of the library's own lookups; oracles: no dying thread, coverage that certainly existed still reports, root deletion contract",
+        "text": "Histories that C01 excludes run against the real observer while, at a generated index of the library's inotify_add_watch / os.walk calls, the harness deletes, renames aside or re-creates the very entry about to be looked at; no library thread may end with an unhandled exception, three sentinels in the living root must never go unanswered, every start directory that kept path and inode must still report a probe, a second handler on the same watch must see it too, and deleting the root must yield exactly one DirDeletedEvent(root), nothing after it and a stopped emitter.",
+        "note": "Real kernel; the race outcome is produced by the real kernel (no faked errno). An OSError raised to the caller of schedule() because a directory vanished during the initial walk is treated as an allowed outcome (not a dying thread). Trusted: vlib/fsops.py and the proxies in props/c07.py.",
+    },
 }
 
 ALL = [f"C{i:02d}" for i in range(1, 21)]
